@@ -473,6 +473,20 @@ func c15Cells(seed int64, thorough, race bool) []c15Cell {
 			}
 		}
 	}
+	// widths and heights at and around 4096, 8192 and 65536 (sizes at which an implementation might
+	// cut its work into spans)
+	if !race {
+		for _, h := range c15Helpers {
+			for k, sk := range []string{"RGBA64", "NRGBA", "RGBA", "NRGBA64", "YCbCr420", "Gray", "Paletted"} {
+				for j, sz := range [][2]int{{4096, 2}, {8192, 1}, {4095, 2}, {4097, 1}, {12288, 1}, {65536, 1}, {2, 4096}, {1, 65537}} {
+					if (k+j)%2 == 1 && sk != "RGBA64" {
+						continue
+					}
+					cells = append(cells, c15Cell{Helper: h, Src: sk, Sub: (k+j)%3 == 0, W: sz[0], H: sz[1], OX: 0, OY: 2, Par: 1 + (k+j)%4, Seed: rng.U64()})
+				}
+			}
+		}
+	}
 	// chroma-subsampled images that reach into negative coordinates (as a whole, with even origin, and
 	// as interior windows at odd negative coordinates), and palettes of more than 256 entries (legal:
 	// a pixel can only name the first 256)
